@@ -118,6 +118,11 @@ impl<S: SelfEmulation> PartiallyEvaluated<S> {
             let den = scalar_chip.add_constant(layouter, xn, -S::F::ONE)?;
             scalar_chip.div(layouter, &num, &den)?
         };
+        #[cfg(feature = "verif-hooks")]
+        super::verif_hooks::arith_log::<S::F>(
+            "expected_h",
+            std::slice::from_ref(&expected_h_eval),
+        );
 
         let splitting_factor = AssignedBoundedScalar::new(splitting_factor, None);
         let mut acc = AssignedBoundedScalar::one(layouter, scalar_chip)?;
